@@ -469,6 +469,15 @@ func runC09(e *core.Env) {
 	case "import-name":
 		iopts = append(iopts, regclient.ImageWithImportName(exportTag))
 	}
+	// the import tag may already exist at the new location and name another image (a re-import of :stable)
+	if how != "digest" && e.Choose("gen", 3, "importOverExisting") == 2 {
+		og := gen.New(e.Tape)
+		og.MaxBlob = 40
+		og.NoExt = true
+		old := &gen.Graph{Root: og.Image(false), DigestTags: map[string]*gen.Node{}}
+		tgt.install(old, "imp", false)
+		e.Probe("import-onto-an-existing-tag")
+	}
 	simrt.Event("ImageImport by %s into %v", how, sample["target"])
 	if err := rc.ImageImport(ctx, tgtRef, &sliceReadSeeker{e: e, r: bytes.NewReader(imp)}, iopts...); err != nil {
 		e.Violation("import", "import-failed:"+gr.Shape, "importing the exported archive (%s, shuffled=%v, by %s) failed: %v", gr.Shape, shuffle, how, err)
